@@ -329,6 +329,21 @@ impl<T: TryFromJson<Error = ConvErr>> json_syntax::TryFromJsonObject for ObjVia<
 	}
 }
 
+/// A user type converted from a JSON VALUE that hands objects over to the object traits at whatever offset it is at:
+/// `Box<Box<ObjVia<T>>>::try_from_json_object_at(object, code_map, offset)`; anything else is a kind mismatch there.
+/// Same verdicts as `BTreeMap<String, T>`.
+pub struct ViaObj<T>(std::marker::PhantomData<T>);
+impl<T: TryFromJson<Error = ConvErr>> TryFromJson for ViaObj<T> {
+	type Error = ConvErr;
+	fn try_from_json_at(json: &Value, code_map: &CodeMap, offset: usize) -> Result<Self, ConvErr> {
+		use json_syntax::TryFromJsonObject;
+		match json {
+			Value::Object(o) => Box::<Box<ObjVia<T>>>::try_from_json_object_at(o, code_map, offset).map(|_| ViaObj(std::marker::PhantomData)),
+			other => Err(ConvErr { offset, found: Some(other.kind()), expected: Some(KindSet::OBJECT) }),
+		}
+	}
+}
+
 /// the same conversion entered through the object traits: `try_from_json_object` on the root object (offset 0 is
 /// implied), directly and through `Box`, and `try_from_json_object_at` at the root
 fn convert_object(shape: &str, o: &json_syntax::Object, cm: &CodeMap) -> Option<Vec<Result<(), ConvErr>>> {
@@ -414,6 +429,26 @@ pub fn replay_conv(rep: &mut Report, rec: &J) {
 	};
 	if exp != got.as_array().unwrap() {
 		rep.mismatch("C11.conv", json!({"what": "conversion does not report the kind mismatch at the offset of the offending fragment", "vector": rec, "type": shape, "observed": got}));
+	}
+	// maps anywhere in the type converted through the object traits (non-zero offsets)
+	let via = match shape.as_str() {
+		"map(num)" => Some(guarded(|| run_conv::<ViaObj<LNum>>(&v, &cm))),
+		"map(vec(num))" => Some(guarded(|| run_conv::<ViaObj<Vec<LNum>>>(&v, &cm))),
+		"vec(map(num))" => Some(guarded(|| run_conv::<Vec<ViaObj<LNum>>>(&v, &cm))),
+		"map(opt(vec(str)))" => Some(guarded(|| run_conv::<ViaObj<Option<Vec<LStr>>>>(&v, &cm))),
+		"map(map(unit))" => Some(guarded(|| run_conv::<ViaObj<ViaObj<LUnit>>>(&v, &cm))),
+		_ => None,
+	};
+	if let Some(r) = via {
+		rep.count("conv_calls");
+		let got = match &r {
+			Ok(Ok(())) => json!([-1]),
+			Ok(Err(e)) => json!([e.offset, e.found.map(kind_name), e.expected.map(|s| s.as_disjunction().to_string())]),
+			Err(p) => json!(["panic", p]),
+		};
+		if exp != got.as_array().unwrap() {
+			rep.mismatch("C11.conv", json!({"what": "conversion of maps through the object traits (Box<T>: TryFromJsonObject at the map's own offset) does not report the kind mismatch at the offset of the offending fragment", "vector": rec, "type": shape, "observed": got}));
+		}
 	}
 	if let Value::Object(o) = &v {
 		if let Ok(Some(rs)) = guarded(|| convert_object(&shape, o, &cm)) {
